@@ -117,6 +117,9 @@ pub fn uniform_weight_interval(g: &G, min_omega: f64) -> Option<(f64, f64)> {
 
 // ------------------------------------------------------------------ G-graph: arbitrary multigraphs
 pub fn gen_any_graph(t: &mut Tape, tier: Tier) -> G {
+    if t.chance(0.03) {
+        return gen_sparse_large_graph(t, tier);
+    }
     let nv = t.range(1, 6);
     let mut labels: Vec<u8> = if t.chance(0.6) {
         let mut ls = vec![];
@@ -155,6 +158,70 @@ pub fn gen_any_graph(t: &mut Tape, tier: Tier) -> G {
     let dyadic = !t.chance(0.4);
     let try_fit = !t.chance(0.25);
     fit_weights(t, &mut g, dyadic, 0.0, false, if try_fit { 6 } else { 1 });
+    g
+}
+
+/// larger sparse graphs: chains, trees with a few chords, up to 12 (thorough 14) edges on up to E+1 vertices
+pub fn gen_sparse_large_graph(t: &mut Tape, tier: Tier) -> G {
+    let ne = t.range(8, tier.pick(12, 14));
+    let shape = t.below(3);
+    let mut edges: Vec<(u8, u8)> = vec![];
+    let base = t.below(200) as u8;
+    let lab = |v: usize| base.wrapping_add(v as u8);
+    match shape {
+        0 => {
+            // one chain, listed in order, optionally closed or with a bubble at the end
+            for i in 0..ne {
+                edges.push((lab(i), lab(i + 1)));
+            }
+            match t.below(3) {
+                0 => {}
+                1 => edges[ne - 1] = (lab(ne - 1), lab(0)),
+                _ => edges[ne - 1] = (lab(ne - 2), lab(ne - 1)),
+            }
+        }
+        1 => {
+            // random tree, then chords
+            let nv = t.range(ne / 2 + 1, ne);
+            for v in 1..nv {
+                let u = t.below(v);
+                edges.push((lab(u), lab(v)));
+            }
+            while edges.len() < ne {
+                edges.push((lab(t.below(nv)), lab(t.below(nv))));
+            }
+        }
+        _ => {
+            // two chains sharing their end points (large cycle) plus pendant edges
+            let half = ne / 2;
+            for i in 0..half {
+                edges.push((lab(i), lab(i + 1)));
+            }
+            for i in half..ne {
+                edges.push((lab(t.below(half + 1)), lab(half + 1 + (i - half))));
+            }
+        }
+    }
+    if t.bool() {
+        shuffle(t, &mut edges);
+    }
+    let mass_mode = t.below(3);
+    let massive: Vec<bool> = (0..ne)
+        .map(|_| match mass_mode {
+            0 => false,
+            1 => t.bool(),
+            _ => true,
+        })
+        .collect();
+    let mut verts: Vec<u8> = edges.iter().flat_map(|&(a, b)| [a, b]).collect();
+    verts.sort();
+    verts.dedup();
+    let nx = t.below(5);
+    let externals: Vec<u8> = (0..nx).map(|_| verts[t.below(verts.len())]).collect();
+    let d = t.range(1, 6);
+    let mut g = G { edges, massive, weights: vec![1.0; ne], externals, d };
+    let dyadic = !t.chance(0.4);
+    fit_weights(t, &mut g, dyadic, 0.0, false, 4);
     g
 }
 
@@ -245,7 +312,13 @@ pub fn gen_phys_graph(t: &mut Tape, max_e: usize, max_l: usize, min_omega: f64, 
     }
     let mut vs: Vec<u8> = (0..nv as u8).collect();
     shuffle(t, &mut vs);
-    let externals = vs[..k].to_vec();
+    let mut externals = vs[..k].to_vec();
+    if k >= 2 && t.chance(0.1) {
+        // two external legs attached to the same vertex: the externals list repeats a vertex
+        let dup = externals[t.below(k)];
+        let pos = t.below(k + 1);
+        externals.insert(pos, dup);
+    }
     let d = t.range(1, dmax);
     let mut g = G { edges, massive, weights: vec![1.0; ne], externals, d };
     let dyadic = !t.chance(0.3);
@@ -463,6 +536,24 @@ pub fn gen_kin_data(t: &mut Tape, g: &G) -> (Vec<Vec<f64>>, Vec<f64>) {
     let masses: Vec<f64> = (0..ne).map(|e| if g.massive[e] { t.uniform(0.3, 2.0) } else { 0.0 }).collect();
     (free, masses)
 }
+/// hand-written-style kinematics: momenta with small integer / half-integer components (components that
+/// cancel, vanish or coincide are frequent), unit-like masses
+pub fn gen_kin_data_special(t: &mut Tape, g: &G) -> (Vec<Vec<f64>>, Vec<f64>) {
+    let ne = g.nedges();
+    let d = g.d;
+    let nfree = g.externals.len().saturating_sub(1);
+    let free: Vec<Vec<f64>> = (0..nfree)
+        .map(|_| {
+            let mut p: Vec<f64> = (0..d).map(|_| (t.range(0, 8) as f64 - 4.0) * 0.5).collect();
+            if p.iter().all(|x| *x == 0.0) {
+                p[0] = 1.0;
+            }
+            p
+        })
+        .collect();
+    let masses: Vec<f64> = (0..ne).map(|e| if g.massive[e] { *t.pick(&[1.0, 0.5, 2.0, 1.5]) } else { 0.0 }).collect();
+    (free, masses)
+}
 /// one routing (cycle basis + shifts) of given kinematic data
 pub fn gen_routing(t: &mut Tape, g: &G, free: &[Vec<f64>], masses: &[f64], max_ops: usize) -> Kin {
     let tree = random_tree(t, g);
@@ -557,7 +648,17 @@ pub fn gen_point(t: &mut Tape, g: &G, prof: &PointProfile) -> (Vec<f64>, Vec<&'s
             }
             2 => {
                 let k = t.below(cp.len());
-                let off = t.range(0, 6) as i64 - 3;
+                let off = if t.bool() {
+                    t.range(0, 6) as i64 - 3
+                } else {
+                    // beyond the rounding neighbourhood: 2^j ulps away from the boundary, either side
+                    let mag = 1i64 << t.range(4, 40);
+                    if t.bool() {
+                        mag
+                    } else {
+                        -mag
+                    }
+                };
                 classes.push("u:boundary");
                 let c = cp[k].1.clamp(0.0, 1.0);
                 ulp_step(c, off).clamp(0.0, ONE_M)
@@ -631,6 +732,59 @@ pub struct PhysOpts {
     pub dmax: usize,
     pub max_ops: usize,
     pub profile: PointProfile,
+}
+
+/// an accepted DISCONNECTED graph: a physical graph plus an all-massive vacuum component on fresh vertices
+/// (block-diagonal routing); only for properties whose oracle does not need Symanzik polynomials
+pub fn gen_phys_union(t: &mut Tape, o: &PhysOpts) -> Option<Phys> {
+    let g1 = gen_phys_graph(t, o.max_e.saturating_sub(2).max(2), o.max_l.saturating_sub(1).max(1), o.min_omega, o.dmax)?;
+    let kin1 = gen_kin(t, &g1, o.max_ops);
+    let d = g1.d;
+    // vacuum component: 1..2 fresh vertices, 1..2 loops
+    let used: Vec<u8> = g1.edges.iter().flat_map(|&(a, b)| [a, b]).collect();
+    let mut fresh = (0..=255u8).rev().filter(|v| !used.contains(v));
+    let (va, vb) = (fresh.next()?, fresh.next()?);
+    let e2: Vec<(u8, u8)> = match t.below(3) {
+        0 => vec![(va, va)],
+        1 => vec![(va, vb), (vb, va)],
+        _ => vec![(va, va), (va, vb), (vb, va)],
+    };
+    let n2 = e2.len();
+    let l2 = if n2 == 3 { 2 } else { 1 };
+    let w2: Vec<f64> = (0..n2).map(|_| ((d as f64 / 2.0 + t.uniform(0.1, 1.0)) * 64.0).round() / 64.0).collect();
+    let mut g = g1.clone();
+    let pos = if t.bool() { 0 } else { g.edges.len() };
+    // interleave at the front or the back so that edge indices of the two components mix with the removal order
+    let mut sig: Vec<Vec<isize>> = vec![];
+    let nl1 = kin1.sig[0].len();
+    let row1 = |r: &Vec<isize>| { let mut v = r.clone(); v.extend(std::iter::repeat(0).take(l2)); v };
+    let sig2: Vec<Vec<isize>> = match n2 {
+        1 => vec![vec![1]],
+        2 => vec![vec![1], vec![1]],
+        _ => vec![vec![1, 0], vec![0, 1], vec![0, 1]],
+    };
+    let row2 = |r: &Vec<isize>| { let mut v = vec![0; nl1]; v.extend(r.iter().cloned()); v };
+    let m2: Vec<f64> = (0..n2).map(|_| t.uniform(0.3, 2.0)).collect();
+    let mut shifts = kin1.shifts.clone();
+    let mut masses = kin1.masses.clone();
+    for r in &kin1.sig {
+        sig.push(row1(r));
+    }
+    for (i, e) in e2.iter().enumerate() {
+        g.edges.insert(pos + i, *e);
+        g.massive.insert(pos + i, true);
+        g.weights.insert(pos + i, w2[i]);
+        sig.insert(pos + i, row2(&sig2[i]));
+        shifts.insert(pos + i, vec![0.0; d]);
+        masses.insert(pos + i, m2[i]);
+    }
+    if !(g.min_proper_omega() > o.min_omega && g.dod() > 1e-3) || g.nedges() > 12 {
+        return None;
+    }
+    let kin = Kin { sig, shifts, masses, inflow: kin1.inflow.clone() };
+    let (x, mut classes) = gen_point(t, &g, &o.profile);
+    classes.push("graph:disconnected");
+    Some(Phys { g, kin, x, classes: classes.into_iter().map(String::from).collect() })
 }
 
 pub fn gen_phys(t: &mut Tape, o: &PhysOpts) -> Option<Phys> {
